@@ -21,3 +21,16 @@ package ttruncate
 //@        occ(record.Fields[tf.keyLocator], len(record.Fields[tf.keyLocator]) - len(tf.suffix), tf.suffix)
 //@   ensures[ascii-prefix-kept] len(old(record.Fields[tf.keyLocator])) > tf.maxLength + len(tf.suffix) ==>
 //@        forall i int, k int :: 0 <= i && i <= k && k < tf.maxLength && old(record.Fields[tf.keyLocator])[k] <= 127 ==> record.Fields[tf.keyLocator][i] == old(record.Fields[tf.keyLocator])[i]
+
+// ==== configuration: verify => construct (C16) ===================================================================================
+//@ pure func cfgok(c *Config, s base.LogSchema) bool := len(c.Key) > 0 && base.hasf(s, key(c.Key)) && c.MaxLength > 0 && len(c.Suffix) > 0
+//@ func (c *Config) VerifyConfig(schema base.LogSchema) error
+//@   property C16
+//@   requires c != nil
+//@   modifies nothing
+//@   ensures[accepted-config-is-constructible] result == nil ==> cfgok(c, schema)
+//@ func (c *Config) NewTransform(schema base.LogSchema, _ logger.Logger, _ base.LogCustomCounterRegistry) base.LogTransform
+//@   property C16
+//@   requires c != nil && cfgok(c, schema)
+//@   modifies nothing
+//@   ensures  result != nil
